@@ -80,6 +80,8 @@ opcodes = {
     "f32.sub": 0x93,
     "f32.mul": 0x94,
     "f32.div": 0x95,
+    "f32.convert_i32_s": 0xB2,
+    "f32.convert_i32_u": 0xB3,
 }
 
 
